@@ -62,6 +62,7 @@ def writer_layout(ctx, body):
     ordered, _ = _order(g, sites)
     # Some-guards: switches on discriminant of self.<field>
     guards = []
+    nguards = []
     for b in body.blocks:
         if b.cleanup or b.term.kind != "switch" or body.is_noise(b.term):
             continue
@@ -69,6 +70,7 @@ def writer_layout(ctx, body):
         fs = _self_path(e)
         if fs and any("Some" in l for l in ls.values()):
             guards.append((".".join(fs), [(b.idx, tb) for tb, l in ls.items() if "Some" in l]))
+            nguards.append((".".join(fs), [(b.idx, tb) for tb, l in ls.items() if "None" in l]))
     out = []
     for bb, t, kind in ordered:
         dst = arg(an, bb, t, 0)
@@ -78,10 +80,29 @@ def writer_layout(ctx, body):
         v = arg(an, bb, t, 1)
         src = classify_written(v)
         cond = [f for f, edges in guards if g.must_pass(bb, cut_edges=edges)[0]]
+        ncond = [f for f, edges in nguards if edges and g.must_pass(bb, cut_edges=edges)[0]]
         if cond and not src.endswith("!"):
             src += " if " + ",".join(cond)
+        elif ncond and not src.endswith("!"):
+            src += " unless " + ",".join(ncond)
         out.append((kind, src))
-    return out
+    # a presence flag written as a literal in each arm of `match self.f { Some(..) => true, None => false }`
+    # is the same wire step as `write_bool(self.f.is_some())`
+    merged = []
+    skip = set()
+    for i, (kind, src) in enumerate(out):
+        if i in skip:
+            continue
+        if kind == "bool" and src.startswith(("=True if ", "=False unless ")):
+            f = src.split(" ", 2)[2]
+            want = ("=False unless " + f) if src.startswith("=True") else ("=True if " + f)
+            js = [j for j in range(len(out)) if j != i and j not in skip and out[j] == ("bool", want)]
+            if len(js) == 1:
+                skip.add(js[0])
+                merged.append(("bool", f + "?"))
+                continue
+        merged.append((kind, src))
+    return merged
 
 
 def classify_written(v):
@@ -170,3 +191,204 @@ def reader_layout(ctx, body, tname):
             src = "?not-on-buffer"
         out.append((kind, src))
     return out
+
+
+# ---------------------------------------------------------------------------------------------------------
+# value tables of small conversion functions (enum <-> ordinal), by path enumeration with forward
+# constant propagation along each path: independent of whether the function is written as one `match`,
+# as a chain of `if`s, or with the result built through an intermediate binding.
+
+def _pe_operand(an, env, op):
+    if op.place is None:
+        return an.const_expr(op.const)
+    return _pe_place(env, op.place)
+
+
+def _pe_place(env, pl):
+    v = env.get(pl.local, ("local", pl.local))
+    for p in pl.proj:
+        if p == "*":
+            continue
+        if isinstance(p, dict) and "f" in p:
+            if v[0] == "agg" and isinstance(p.get("i"), int) and p["i"] < len(v[3]):
+                v = v[3][p["i"]]
+            else:
+                v = ("proj", v, p.get("n"))
+        elif isinstance(p, dict) and "downcast" in p:
+            continue
+        else:
+            v = ("proj", v, str(p))
+    return v
+
+
+def _pe_strip(v):
+    while v[0] in ("cast", "ref") or (v[0] == "call" and flow.is_transparent_call(("call", v[1], None, v[2])) and v[2]):
+        v = v[1] if v[0] in ("cast", "ref") else v[2][0]
+    return v
+
+
+def function_paths(ctx, body, limit=4000):
+    """[(constraints, env)] for every acyclic non-unwinding path entry -> return. constraints: list of
+    (subject value, arm values or None, excluded values) per switch on the path"""
+    an = ctx.an(body)
+    out = []
+    params = dict((i, ("param", i)) for i in range(1, body.arg_count + 1))
+
+    def step(bb, env, cons, seen):
+        if len(out) >= limit or bb in seen:
+            return
+        blk = body.blocks[bb]
+        if blk.cleanup:
+            return
+        env = dict(env)
+        for i, s in enumerate(blk.stmts):
+            if s.kind != "assign":
+                continue
+            rv = s.rv
+            if rv.k in ("use", "cast", "repeat"):
+                v = _pe_operand(an, env, rv.ops[0])
+                if rv.k == "cast":
+                    v = ("cast", v)
+            elif rv.k == "agg":
+                v = ("agg", rv.j.get("adt") or rv.j.get("ak"), rv.j.get("variant"), [_pe_operand(an, env, o) for o in rv.ops])
+            elif rv.k == "binop":
+                v = ("binop", rv.j["op"], _pe_operand(an, env, rv.ops[0]), _pe_operand(an, env, rv.ops[1]))
+            elif rv.k == "unop":
+                v = ("unop", rv.j["op"], _pe_operand(an, env, rv.ops[0]))
+            elif rv.k == "discr":
+                v = ("discr", _pe_place(env, rv.place))
+            elif rv.k in ("ref", "addr", "copy_for_deref") and rv.place is not None:
+                v = ("ref", _pe_place(env, rv.place))
+            else:
+                v = ("unknown", rv.k)
+            if s.place.is_local():
+                env[s.place.local] = v
+            elif s.place.proj and isinstance(s.place.proj[0], dict) and "f" in s.place.proj[0]:
+                env[s.place.local] = ("unknown", "partial")
+        t = blk.term
+        if t.kind == "return":
+            out.append((cons, env))
+            return
+        seen = seen | {bb}
+        if t.kind == "switch":
+            subj = _pe_operand(an, env, t.discr)
+            arms = {}
+            for v, tb in t.arms:
+                arms.setdefault(tb, []).append(v)
+            allv = [v for v, _ in t.arms]
+            for tb, vs in arms.items():
+                if tb != t.otherwise:
+                    step(tb, env, cons + [(subj, vs, None)], seen)
+            step(t.otherwise, env, cons + [(subj, arms.get(t.otherwise), allv)], seen)
+            return
+        if t.kind == "call" and t.dest is not None and t.dest.is_local():
+            env[t.dest.local] = ("call", flow.short(t.callee_name() or "?"), [_pe_operand(an, env, a) for a in t.args])
+        for nb in t.successors():
+            step(nb, env, cons, seen)
+    for k, v in params.items():
+        pass
+    step(0, params, [], frozenset())
+    return out
+
+
+def _pe_satisfied(cons, subject_is, value, variant_idx=None):
+    """does a path's constraint list admit `param == value` (ints) / `discriminant(param) == variant_idx`?
+    Unknown subjects admit everything."""
+    for subj, vs, excl in cons:
+        s = _pe_strip(subj)
+        test = None
+        if s == ("param", 1) and value is not None:
+            test = value
+        elif s[0] == "discr" and _pe_strip(s[1]) == ("param", 1) and variant_idx is not None:
+            test = variant_idx
+        elif s[0] == "binop" and s[1] in ("Eq", "Ne") and value is not None:
+            a, b = _pe_strip(s[2]), _pe_strip(s[3])
+            if b == ("param", 1):
+                a, b = b, a
+            if a == ("param", 1) and b[0] in ("const", "constitem") and isinstance(b[2], int):
+                truth = (value == b[2]) if s[1] == "Eq" else (value != b[2])
+                test = 1 if truth else 0
+        elif s[0] == "call" and s[1].endswith(("PartialEq::eq", "PartialEq::ne")) and value is not None and len(s[2]) == 2:
+            a, b = _pe_strip(s[2][0]), _pe_strip(s[2][1])
+            if b == ("param", 1):
+                a, b = b, a
+            if a == ("param", 1) and b[0] in ("const", "constitem") and isinstance(b[2], int):
+                truth = (value == b[2]) if s[1].endswith("eq") else (value != b[2])
+                test = 1 if truth else 0
+        if test is None:
+            continue
+        if excl is None:
+            if test not in vs:
+                return False
+        else:
+            if test in excl and not (vs and test in vs):
+                return False
+    return True
+
+
+def _pe_consts(paths):
+    cs = set()
+    for cons, _ in paths:
+        for subj, vs, excl in cons:
+            s = _pe_strip(subj)
+            if s == ("param", 1):
+                cs.update(vs or [])
+                cs.update(excl or [])
+            elif s[0] in ("binop", "call"):
+                ops = s[2:4] if s[0] == "binop" else s[2]
+                for o in ops:
+                    o = _pe_strip(o)
+                    if o[0] in ("const", "constitem") and isinstance(o[2], int) and not isinstance(o[2], bool):
+                        cs.add(o[2])
+    return cs
+
+
+def decode_table(ctx, body):
+    """{int: Variant | 'Err'} plus 'otherwise' when an unlisted integer does not yield Err"""
+    paths = function_paths(ctx, body)
+    if not paths:
+        return {}
+
+    def kind(env):
+        r = _pe_strip(env.get(0, ("unknown", "")))
+        if r[0] == "agg" and r[2] == "Err":
+            return "Err"
+        if r[0] == "agg" and r[2] == "Ok" and r[3]:
+            x = _pe_strip(r[3][0])
+            if x[0] == "agg" and x[2]:
+                return x[2]
+        if r[0] == "call" and r[1].endswith("from_residual"):
+            return "Err"
+        return "?"
+    consts = _pe_consts(paths)
+    fresh = (max(consts) + 1000003) if consts else 1000003
+    tbl = {}
+    for v in sorted(consts) + [fresh]:
+        ks = set(kind(env) for cons, env in paths if _pe_satisfied(cons, None, v))
+        k = ks.pop() if len(ks) == 1 else "?"
+        if v == fresh:
+            if k != "Err":
+                tbl["otherwise"] = k
+        elif k != "Err":
+            tbl[v] = k
+    return tbl
+
+
+def encode_table(ctx, body):
+    """{Variant: int} for a conversion enum -> ordinal"""
+    paths = function_paths(ctx, body)
+    an = ctx.an(body)
+    ty = body.locals[1].get("s", "") if len(body.locals) > 1 else ""
+    names = an._variants_of_type(ty)
+    tbl = {}
+    for idx, name in sorted(names.items()):
+        vals = set()
+        for cons, env in paths:
+            if _pe_satisfied(cons, None, None, variant_idx=idx):
+                r = _pe_strip(env.get(0, ("unknown", "")))
+                vals.add(r[2] if r[0] in ("const", "constitem") and isinstance(r[2], int) else "?")
+        if len(vals) == 1:
+            tbl[name] = vals.pop()
+        elif vals:
+            tbl[name] = "?"
+    return tbl
